@@ -580,6 +580,7 @@ def d7_sleep_list(facts, rep):
                        bool(before.get(pos, frozenset()) & locks), '%s touched outside my_mutex' % node['n'], ln=node['ln'],
                        key_extra=str(node['ln']) + node['n'])
     serializer_request_word(facts, rep)
+    market_mandatory_allotment(facts, rep)
     for name in ('enable_mandatory_concurrency', 'disable_mandatory_concurrency'):
         for fn in facts.get(R1 + 'thread_request_serializer_proxy::' + name):
             up = calls_named(fn, ('upgrade_to_writer',))
@@ -828,3 +829,103 @@ def serializer_request_word(facts, rep):
         rep.ob('D7', 'K14', fn, 'the previous value of the request word is examined in full width', not bad,
                'the word is truncated before it is compared with the base (%s): once the update counter reaches the truncated width a thread '
                'aggregates although another one still holds the critical section' % '; '.join(bad), key_extra='prev')
+
+
+def market_mandatory_allotment(facts, rep):
+    """With a worker soft limit of 0 (max_allowed_parallelism == 1, or one CPU) the only worker exists to serve enqueued work:
+    market::update_allotment grants it to the first client that asks for a mandatory worker (min_workers() > 0) as long as
+    the *total* budget is not used up.  The share of a priority level is computed from the ordinary demand of that level, which
+    says nothing about who holds a mandatory request: if the grant is bounded by (anything derived from) a per-level quantity,
+    a higher level with ordinary demand but no mandatory request uses the budget up and work enqueued into an arena of a lower
+    level never runs.  Rule: on the paths from the `soft limit == 0` edge to the point where the allotment is handed to the
+    client, no value in the backward slice of what is read there comes from an arithmetic per-level array of the market
+    (subscripted member); the running total accumulated from the allotments themselves is taken as it is."""
+    for fn in facts.get(R1 + 'market::update_allotment'):
+        defs = Defs(fn)
+        sets = [(pos, s, node) for pos, s, node, d in calls(fn) if (d or {}).get('n') == 'set_allotment']
+        grant_vars = set()
+        for pos, s, node in sets:
+            for a in node.get('a', []):
+                an = fn.n(fn.strip(a))
+                if an.get('k') == 'var' and an.get('local'):
+                    grant_vars.add(an['v'])
+
+        def soft0(a, truth):
+            nd = fn.n(fn.strip(a))
+            if nd.get('k') != 'binop' or nd['op'] not in ('==', '!='):
+                return False
+            l, r = fn.strip(nd['l']), fn.strip(nd['r'])
+            for x, y in ((l, r), (r, l)):
+                if last_member(fn, x) == 'my_num_workers_soft_limit' and fn.cv(y) == 0:
+                    return truth == (nd['op'] == '==')
+            return False
+        edges = edges_where(fn, soft0)
+        if not sets or not grant_vars or not edges:
+            raise AnalysisBroken('market::update_allotment: set_allotment(<local>) / the `my_num_workers_soft_limit == 0` branch not found')
+        stop = lambda pos, e: isinstance(e, int) and any(e == s for _, s, _ in sets)   # noqa: E731
+        region = None
+        for (b0, si0) in sorted(edges):
+            mand, _, _ = fn.walk((fn.blocks[b0]['succ'][si0], -1), stop_elem=stop)
+            other, _, _ = fn.walk((fn.blocks[b0]['succ'][1 - si0], -1), stop_elem=stop)
+            reg = sorted(mand - other)
+            # the branch that decides the grant: a granted variable is assigned in it
+            if any(isinstance(fn.blocks[p_[0]]['e'][p_[1]], int) and
+                   any(v in grant_vars for (v, dn, val) in defs.defs_at.get(fn.blocks[p_[0]]['e'][p_[1]], [])) for p_ in reg):
+                if region is not None:
+                    raise AnalysisBroken('market::update_allotment: more than one soft-limit-0 branch assigns the allotment')
+                region = reg
+        if not region:
+            raise AnalysisBroken('market::update_allotment: no soft-limit-0 branch assigns the allotment')
+        # running totals: locals that are only ever initialised by a constant or advanced by a granted allotment
+        totals = set()
+        for (vid, dn), val in defs.value_of.items():
+            nd = fn.nodes[dn] if dn >= 0 else {}
+            if nd.get('k') == 'binop' and nd['op'] == '+=' and fn.n(fn.strip(nd['r'])).get('v') in grant_vars:
+                totals.add(vid)
+        for vid in list(totals):
+            for (v2, dn), val in defs.value_of.items():
+                if v2 != vid:
+                    continue
+                nd = fn.nodes[dn] if dn >= 0 else {}
+                if nd.get('k') == 'decl':
+                    if val is None or fn.cv(val) is None:
+                        totals.discard(vid)
+                elif not (nd.get('k') == 'binop' and nd['op'] == '+=' and fn.n(fn.strip(nd['r'])).get('v') in grant_vars):
+                    totals.discard(vid)
+        bad = []
+        seen = set()
+        work = []
+        for pos in region:
+            e = fn.blocks[pos[0]]['e'][pos[1]]
+            if isinstance(e, int):
+                work.append((e, pos))
+        nreads = 0
+        while work:
+            root, pos = work.pop()
+            for x in fn.subtree(root):
+                nd = fn.nodes[x]
+                k = nd.get('k')
+                if k == 'index':
+                    base = fn.n(fn.strip(nd['base']))
+                    ty = base.get('ty') or ''
+                    if base.get('k') == 'member' and base.get('cls', '').endswith('market') and '[' in ty and \
+                            ty.split('[')[0].strip() in ('int', 'unsigned int', 'long', 'unsigned long', 'std::size_t', 'size_t', 'unsigned'):
+                        bad.append('%s[...] (line %s)' % (base.get('n'), nd.get('ln')))
+                if k == 'var' and nd.get('local') and 'fn' not in nd:
+                    vid = nd['v']
+                    if vid in totals or vid in grant_vars:
+                        continue
+                    p = fn.pos_of(x) or pos
+                    for dn in (defs.reaching(p, vid) or []):
+                        if dn < 0 or (vid, dn) in seen:
+                            continue
+                        seen.add((vid, dn))
+                        nreads += 1
+                        dpos = fn.pos_of(dn)
+                        work.append((dn, dpos or p))
+        rep.ob('D7', 'K10', fn, 'the mandatory worker is granted against the total budget, not against the share of a priority level',
+               not bad, 'with a soft limit of 0 the grant depends on %s: a level with ordinary demand but no mandatory request uses the budget '
+               'up, and work enqueued into an arena of a lower priority level never runs' % ', '.join(sorted(set(bad))),
+               key_extra='mandatory')
+        if nreads == 0:
+            raise AnalysisBroken('market::update_allotment: nothing is read on the soft-limit-0 branch')
